@@ -93,10 +93,12 @@ def references():
     b = BV('p', PA)
     k1 = BV('k', RANGE(A(M, 'num_lecturers')))
     k2 = BV('k', RANGE(A(M, 'num_lecturers')))
+    k0 = BV('i', RANGE(A(M, 'num_students')))
     marr = ref_matching_array()
     return {
         'matching': [('sjoin', C(' '), marr)],
-        'size': [CALL(S('len'), [PA]), BIN('Sub', A(M, 'num_students'), CALL(A(marr, 'count'), [C('0')])), ('sum', ((b, TRUE),), C(1))],
+        'size': [CALL(S('len'), [PA]), BIN('Sub', A(M, 'num_students'), CALL(A(marr, 'count'), [C('0')])), ('sum', ((b, TRUE),), C(1)),
+                 ('sum', ((k0, CMP('NotEq', I(marr, k0), C('0'))),), C(1)), CALL(S('len'), [('comp', ((k0, CMP('NotEq', I(marr, k0), C('0'))),), k0)])],
         'cost': [('tuple', (ref_sum('rank_student'), ref_sum('rank_lecturer', guard_attr='rank_lecturer')))],
         'cost_sq': [('tuple', (ref_sum('rank_student', True), ref_sum('rank_lecturer', True, 'rank_lecturer')))],
         'degree': [('max0', ((b, TRUE),), A(b, 'rank_student'))],
@@ -312,26 +314,20 @@ def unwrap_single(c):
 def check_stat(rep, repo, f, label, c, refs, pa_c):
     rule = 'C11.R1'
     if label == 'profile':
-        # F"< {srep(chain over PROFILE, F"{b} ")}>"
-        ok = False
-        why = show(c)[:200]
-        if c[0] == 'fstr' and len(c[1]) == 3 and c[1][0] == C('< ') and c[1][2] == C('>') and c[1][1][0] == 'srep':
-            ch, inner, sep = c[1][1][1], c[1][1][2], c[1][1][3]
-            if len(ch) == 1 and ch[0][1] == TRUE and inner == ('fstr', (ch[0][0], C(' '))) and sep in (C(None), C('')):
-                arr = canon(ch[0][0][3])
-                want = with_pa(ref_profile(), pa_c)
-                if equiv(arr, want):
-                    ok = True
-                else:
-                    bad = closed(arr)
-                    if bad is not None:
-                        rep.inconclusive(rule, f.where, 'the profile array is inside the aggregate algebra', got=bad)
-                        return
-                    why = 'profile array %s' % show(arr)[:200]
-            elif len(ch) == 1 and sep == C(' ') and inner == ('fstr', (ch[0][0],)):
-                why = 'entries joined by blanks without the trailing blank of the documented format'
-        rep.check(ok, rule, f.where, "profile: '< ' + one counter per rank 1..max rank, each followed by a blank, + '>' ; counter r-1 = number of matched pairs of student rank r",
-                  got=why if not ok else 'reference form', want='< c1 c2 ... cR >', construct='profile line')
+        prof = ref_profile()
+        wants = []
+        for sep in (C(None), C('')):
+            e = BV('e', prof)
+            wants.append(with_pa(fs('< ', ('srep', ((e, TRUE),), fs(e, ' '), sep), '>'), pa_c))
+        if any(equiv(c, w) for w in wants):
+            rep.ok(rule, f.where, "profile = '< ' + one counter per rank (each followed by a blank) + '>'", got=show(c)[:160])
+            return
+        bad = closed(c)
+        if bad is not None:
+            rep.inconclusive(rule, f.where, 'the profile line is inside the aggregate algebra', got=bad)
+            return
+        rep.fail(rule, f.where, "profile: '< ' + one counter per rank 1..max rank, each followed by a blank, + '>' ; counter r-1 = number of matched pairs of student rank r",
+                 got=show(c)[:300], want=show(wants[0])[:300], construct='profile line')
         return
     c = unwrap_single(c)
     wants = [with_pa(r, pa_c) for r in refs[label]]
